@@ -33,6 +33,16 @@ CHECKS.update({
    text="The callbacks are actions of the specification with their position in the publish/invocation frames; start callbacks plant tokens in the context they return and the trace specification requires each complete to present its start's token, handler tokens to descend from the publish token, and the error flag to equal 'the invocation panicked'.",
    note=BUSNOTE+" Persist callbacks and the OpenTelemetry implementation: see the persist and otel parts of the check.", ref="DESIGN.md 5/C20"),
 })
+
+STORENOTE="Trusted: TLC, the Go driver's projection (event identity = id embedded in the JSON payload; fidelity = type equal, JSON equal with number literals preserved, time.Equal instant), the third-party durable-streams test server (in-process httptest, small ChunkSize)."
+CHECKS.update({
+ "C10": dict(technique="TLA+ spec Log.tla (store contract with offsets as opaque tokens bound to positions): exhaustive TLC proof obligation MCLog (any contract-abiding store gives gap-free, repeat-free read chains); recorded call sequences of the real memory / SQLite / durable-streams stores validated against LogTrace.tla",
+   text="Log.tla states the contract once; MCLog checks exhaustively (small scope) that the contract implies the resumability clause for every choice a store may make; every call of long random call sequences against the three real stores (two separately created stores per run, rich type/JSON/timestamp inputs, every handed-out token used as a resume point, concurrent appenders) is one trace line that must be an action of Log.tla. Byte-level breadth of the inputs is random generation, not model checking.",
+   note=STORENOTE+" Listed findings (known_findings.jsonl): SQLite decimal offsets (9 -> 10), durable-streams synthetic per-event offsets and limit truncation; main runs steer around them, dedicated probes keep reporting them.", ref="DESIGN.md 5/C10, 4.3"),
+ "C11": dict(technique="TLA+ spec Replay.tla (both paths of bus.Replay with faults) model-checked exhaustively; the same finite product of (store, length, start, batch, fault) executed on the real stores and validated against ReplayTrace.tla",
+   text="Replay.tla model-checks the algorithm of persist.go over a contract-abiding store for every log length, start, batch size and fault position; the conformance step executes that whole product on memory, SQLite (stream, batched, paged) and durable-streams stores behind fault-injecting wrappers and accepts a run only if the callback saw exactly the next due event each time, nil was returned only after all of them, and every injected failure or cancellation was reported.",
+   note=STORENOTE+" Exhaustive within N<=5 (quick) / N<=9 (thorough) events. SQLite row-level read errors are injected at the EventStore interface (wrapper), not inside database/sql.", ref="DESIGN.md 5/C11, 4.4"),
+})
 checks=[]
 for p in props:
     c=CHECKS.get(p['id'])
